@@ -331,3 +331,4 @@ mut("same-item-offset-tests-anchor", "C14", "yrs/src/sticky_index.rs", "        
     "                                    if !right.ptr.is_deleted() && item.is_countable() {\n                                        index += item.content_len(encoding);", "liveness", also=["C17"])
 mut("scan-benign-undo-stack-find", "C12", UN, "        for item in self.0.iter() {\n            if item.deletions.contains(id) {\n                return true;\n            }\n        }\n        false",
     "        self.0.iter().find(|item| item.deletions.contains(id)).is_some()", "", kind="benign")
+mut("c06d-remove-client-from-store", "C06", BS, "    pub fn is_empty(&self) -> bool {\n        self.clients.is_empty()\n    }", "    pub fn is_empty(&self) -> bool {\n        self.clients.is_empty()\n    }\n\n    pub fn forget(&mut self, client: &ClientID) {\n        self.clients.remove(client);\n    }", "C06.d")
